@@ -7,10 +7,11 @@ ID = "C13"
 COQ_FILES = ["Common/Bytes.v", "Common/Corr.v", "Model/Utf8.v", "Model/Lines.v", "Model/FileInfo.v",
              "Proofs/Utf8.v", "Proofs/Lines.v", "Proofs/FileInfo.v", "Props/C13.v"]
 PROPS = "Props/C13.v"
-THEOREMS = ["C13_line_table_exact", "C13_line_is_newlines_before_refuted", "C13_line_is_newlines_before_partial",
-            "C13_col_spec_partial", "C13_col_counts_characters", "C13_partial_table_same_position",
-            "C13_span_start_le_end", "C13_source_pos_in_range",
-            "C13_fixed_line_table", "C13_fixed_line_is_newlines_before", "C13_fixed_col_spec"]
+THEOREMS = ["C13_line_table_exact", "C13_source_pos_in_range", "C13_line_is_newlines_before_refuted",
+            "C13_line_is_newlines_before_partial", "C13_col_spec_partial", "C13_col_counts_characters",
+            "C13_partial_table_same_position", "C13_span_start_le_end", "C13_span_start_le_end_any_table",
+            "C13_comment_span_start_le_end", "C13_lex_lines_strictly_increasing",
+            "C13_fixed_line_table", "C13_fixed_line_and_col_spec"]
 AXIOMS_OK = []
 TRUSTED = ["hand-written Gallina model of FileInfo.SourcePos, NodeInfo.Start/End, Comment.End (ast/file_info.go) and of the rune-level "
            "control flow of protoLex.Lex / readIdentifier / readNumber / readStringLiteral / skipToEndOf*Comment (parser/lexer.go) "
